@@ -74,10 +74,7 @@ JS(s) == {s[k] : k \in DOMAIN s}
 NonDecreasingCls(cls) ==
   \A j, k \in DOMAIN cls : (j < k /\ cls[j] > 0 /\ cls[k] > 0) => cls[j] <= cls[k]
 
-RECURSIVE InsertSorted(_, _)
-InsertSorted(s, x) == IF s = <<>> THEN <<x>> ELSE IF x <= Head(s) THEN <<x>> \o s ELSE <<Head(s)>> \o InsertSorted(Tail(s), x)
-RECURSIVE SortInts(_)
-SortInts(s) == IF s = <<>> THEN <<>> ELSE InsertSorted(SortInts(Tail(s)), Head(s))
+SortInts(s) == SortSeq(s, LAMBDA a, b : a < b)
 
 \* one result list against its population (pop: <<id, cls>> pairs of the stored items inside the filter)
 ResultDefects(res, pop, countEff, exhaustive, filtered) ==
@@ -129,7 +126,7 @@ SearchDefects(q, ix, nodesMs, Side(_, _)) ==
                r.c # "DimErr" \/ (r.c = "DimErr" /\ (r.exp # q.dim \/ r.got # q.baddim[k].len))
           THEN {<<"C19", "search_with_wrong_length">>} ELSE {})
     \cup (IF q.n > 0 /\ q.ntrees = 0 THEN {<<"C15", "non_empty_index_without_tree">>} ELSE {})
-    \cup (IF \E k \in DOMAIN q.self :
+    \cup (IF q.sides /\ \E k \in DOMAIN q.self :
                /\ ~q.self[k][2]
                \* a NaN margin anywhere in the forest disorders the queue: no claim for that query
                /\ \A n \in DOMAIN nodesMs : IsSplit(nodesMs[n]) => Side(nodesMs[n].plane, q.self[k][1]) # "N"
